@@ -23,6 +23,7 @@ def script_from_pattern(rng, bits, first_pass=False):
 
 
 def run(ctx):
+    gen.INTEGRAL[0] = True          # real-typed weights are integer-valued here: how fractional weights are rounded is C08's subject
     ctx.trusted = ['Coq 8.16.1 kernel; Print Assumptions below (C05_stop, C05_pass_predicate: closed; C05_params mentions the generated R/float constants, hence the standard real-number axioms and primitive floats)',
                    'translator T1 (params.hpp constants, `iteration % N == 0` in solver.hpp, termination_reason enum)',
                    'correspondence K-CTRL: the real Solver::run/loop driven through the likelihood_computed hook with scripted likelihood values vs the extracted model',
